@@ -1,5 +1,5 @@
 Require Extraction.
 Require Import ExtrOcamlBasic.
-From LedgerV Require Import Base.Prelude Base.Round Base.ExtractHelpers Model.Amount Model.Xact Model.Journal Model.Subtotal Model.Glob.
+From LedgerV Require Import Base.Prelude Base.Round Base.ExtractHelpers Model.Amount Model.Xact Model.Journal Model.Subtotal Model.Glob Model.Aliases Model.Layout.
 Extraction "model_C08.ml" h_add h_mul h_div h_mod h_opp h_ltb h_eqb h_qred h_qmake h_qnum h_qden
-  run_journal cost_per_unit cost_total flatten journal_balances final_pool pool_get accepted_posts date_range group_range include_matches.
+  run_journal cost_per_unit cost_total flatten journal_balances final_pool pool_get accepted_posts date_range group_range include_matches read_journal closed.
